@@ -1049,6 +1049,24 @@ fn gen_record_font(r: &mut Rng, id: usize) -> RecFont {
     RecFont { data: with_cmap(&base, cmap), label, blocks, selectors }
 }
 
+
+/// A format 4 subtable that no longer fits 64 KiB after subsetting: one glyphIdArray segment of 20000 consecutive
+/// code points in the source; requesting every other one needs 10000 segments.  The font also has format 12
+/// subtables, so the characters can still be mapped.
+fn fmt4_overflow(s: &mut Session, r: &mut Rng) {
+    let pairs: Vec<(u32, u32)> = (0..20000u32).map(|i| (0x4E00 + i, 1 + (i * 7) % 40)).collect();
+    let subs = vec![SrcSub::F4 { lang: 0, pairs: pairs.clone(), array: true }, SrcSub::F12 { lang: 0, pairs: pairs.clone() }];
+    let recs = vec![(0u16, 3u16, 0usize), (0, 4, 1), (3, 1, 0), (3, 10, 1)];
+    let cmap = build_cmap(&recs, &subs);
+    let base = font_from_mapping("syn:cmap4-overflow", 42, &[(0x41, 1)]);
+    let data = with_cmap(&base, cmap);
+    for (step, flags) in [(2u32, 0u16), (2, F_RETAIN_GIDS), (3, F_NOTDEF_OUTLINE)] {
+        let req = Req { gids: vec![], unicodes: (0..20000u32).filter(|i| i % step == 0).map(|i| 0x4E00 + i).collect(), flags };
+        s.count("cmap-blocks:fmt4-overflow-request");
+        cmap_oracles(s, "syn:cmap4-overflow", &data, &req, r);
+    }
+}
+
 fn record_fonts(cfg: &Config, s: &mut Session, r: &mut Rng) {
     let nfonts = if cfg.thorough() { 400 } else { 32 };
     let nreq = if cfg.thorough() { 24 } else { 9 };
@@ -1149,5 +1167,6 @@ pub fn run(cfg: &Config, s: &mut Session, r: &mut Rng) {
     unit_lists(cfg, s, r);
     block_fonts(cfg, s, r);
     record_fonts(cfg, s, r);
+    fmt4_overflow(s, r);
     corpus_blocks(cfg, s, r);
 }
